@@ -68,6 +68,8 @@ func Normalize(s *vschema.Schema, mi int, v *Val) *Val {
 		case vschema.Oneof:
 			if slot.T == One {
 				out.Kids = append(out.Kids, VOne(el(slot.Kids[0], true)))
+			} else if slot.T == OneNil {
+				out.Kids = append(out.Kids, VNone()) // a typed-nil wrapper is an unset oneof
 			} else {
 				out.Kids = append(out.Kids, slot)
 			}
